@@ -93,11 +93,26 @@ class Translator:
         self.repliers = self._repliers()
 
     # ---- which functions of the module send a Command Status / Command Complete event
-    def _all_functions(self):
+    # R_ctl: methods of Controller, R_other: functions of other classes / module level / nested
+    # functions, that construct such an event or (transitively) call a function that does.
+    # Inside Controller a call on `self` resolves to Controller methods and a call on any other
+    # receiver to the functions of the other classes (by name); inside other classes every
+    # attribute resolves by name against all classes (they hold a reference to the controller).
+    def _functions(self):
+        """[(owner, FunctionDef)] with owner 'Controller' or 'other'; nested functions are
+        listed separately with the owner of their enclosing class"""
         out = []
-        for node in ast.walk(self.tree):
-            if isinstance(node, (ast.FunctionDef, ast.AsyncFunctionDef)):
-                out.append(node)
+
+        def visit(node, owner):
+            for child in ast.iter_child_nodes(node):
+                if isinstance(child, ast.ClassDef):
+                    visit(child, 'Controller' if child is self.cls else 'other')
+                elif isinstance(child, (ast.FunctionDef, ast.AsyncFunctionDef)):
+                    out.append((owner, child))
+                    visit(child, owner)
+                else:
+                    visit(child, owner)
+        visit(self.tree, 'other')
         return out
 
     @staticmethod
@@ -109,31 +124,48 @@ class Translator:
                 return True
         return False
 
+    def _refs(self, node, owner):
+        """names of functions referenced by node: (set of Controller method names, set of other names)"""
+        ctl, other = set(), set()
+        for n in ast.walk(node):
+            if isinstance(n, ast.Attribute):
+                if owner == 'Controller':
+                    if _is_name(n.value, 'self'):
+                        ctl.add(n.attr)
+                    else:
+                        other.add(n.attr)
+                else:
+                    ctl.add(n.attr)
+                    other.add(n.attr)
+            elif isinstance(n, ast.Name):
+                other.add(n.id)
+        return ctl, other
+
     def _repliers(self):
-        funcs = self._all_functions()
-        rep = {f.name for f in funcs if self._mentions_reply_event(f)}
+        funcs = self._functions()
+        r_ctl, r_other = set(), set()
+        for owner, f in funcs:
+            if self._mentions_reply_event(f):
+                (r_ctl if owner == 'Controller' and f.name in self.methods and self.methods[f.name] is f
+                 else r_other).add(f.name)
         changed = True
         while changed:
             changed = False
-            for f in funcs:
-                if f.name in rep:
+            for owner, f in funcs:
+                is_method = owner == 'Controller' and self.methods.get(f.name) is f
+                if (f.name in r_ctl) if is_method else (f.name in r_other):
                     continue
-                for n in ast.walk(f):
-                    if (isinstance(n, ast.Attribute) and n.attr in rep) or (isinstance(n, ast.Name) and n.id in rep):
-                        rep.add(f.name)
-                        changed = True
-                        break
-        return rep
+                ctl, other = self._refs(f, owner)
+                if (ctl & r_ctl) or (other & r_other):
+                    (r_ctl if is_method else r_other).add(f.name)
+                    changed = True
+        return r_ctl, r_other
 
     def _mentions_replier(self, node) -> bool:
         if self._mentions_reply_event(node):
             return True
-        for n in ast.walk(node):
-            if isinstance(n, ast.Attribute) and n.attr in self.repliers:
-                return True
-            if isinstance(n, ast.Name) and n.id in self.repliers:
-                return True
-        return False
+        ctl, other = self._refs(node, 'Controller')
+        return bool((ctl & self.repliers[0]) or (other & self.repliers[1]))
 
     # ---- the two primitive senders: check their shape and read the credit constants
     def check_primitives(self):
@@ -230,6 +262,10 @@ class Translator:
 
     def stmt(self, s, cmd, where, dispatch):
         if isinstance(s, ast.Pass):
+            return 'Nop'
+        if isinstance(s, ast.Delete):
+            if self._mentions_replier(s):
+                return self._unknown(where, s, 'del mentions a replying function')
             return 'Nop'
         if isinstance(s, ast.Expr):
             v = s.value
@@ -480,6 +516,6 @@ def translate():
         'credits': [tr.credit_status, tr.credit_complete],
         'stats': tr.stats,
         'orphans': orphans,
-        'repliers': sorted(tr.repliers),
+        'repliers': [sorted(tr.repliers[0]), sorted(tr.repliers[1])],
     }
     return '\n'.join(lines), info
